@@ -649,6 +649,9 @@ type revExtra struct {
 	Literals []string
 }
 
+// globalInitLiterals: the string constants in the initialiser of a package-level variable (e.g. the elements of an allow-list)
+var globalInitLiterals func(name string) []string
+
 func literals(f *ssa.Function) []string {
 	seen := map[*ssa.Function]bool{}
 	reach(f, seen)
@@ -657,6 +660,11 @@ func literals(f *ssa.Function) []string {
 		for _, b := range fn.Blocks {
 			for _, ins := range b.Instrs {
 				for _, op := range ins.Operands(nil) {
+					if g, ok := (*op).(*ssa.Global); ok && globalInitLiterals != nil {
+						for _, v := range globalInitLiterals(g.Name()) {
+							set[v] = true
+						}
+					}
 					if c, ok := (*op).(*ssa.Const); ok && c.Value != nil && c.Value.Kind() == constant.String {
 						if v := constant.StringVal(c.Value); len(v) < 80 {
 							set[v] = true
@@ -855,6 +863,39 @@ end PSA.Generated
 
 	// ---- F4 / F5
 	polSSA := ssaBy[mod+"policy"]
+	globalInitLiterals = func(name string) []string {
+		var out []string
+		for _, f := range polPkg.Syntax {
+			for _, d := range f.Decls {
+				gd, ok := d.(*ast.GenDecl)
+				if !ok {
+					continue
+				}
+				for _, sp := range gd.Specs {
+					vs, ok := sp.(*ast.ValueSpec)
+					if !ok {
+						continue
+					}
+					for i, n := range vs.Names {
+						if n.Name != name || i >= len(vs.Values) {
+							continue
+						}
+						ast.Inspect(vs.Values[i], func(nd ast.Node) bool {
+							if e, ok := nd.(ast.Expr); ok {
+								if tv, ok := polPkg.TypesInfo.Types[e]; ok && tv.Value != nil && tv.Value.Kind() == constant.String {
+									if v := constant.StringVal(tv.Value); len(v) < 80 {
+										out = append(out, v)
+									}
+								}
+							}
+							return true
+						})
+					}
+				}
+			}
+		}
+		return out
+	}
 	var readLines, writeLines []string
 	var extra []revExtra
 	for _, r := range revs {
